@@ -1,6 +1,7 @@
 import MwVerif.Model.Entity
 import MwVerif.Gen.EntityNames
 import MwVerif.Props.C10
+import MwVerif.Lemmas.StylePath
 /-!
 # C01 — parsing is total (first stages)
 
@@ -9,7 +10,12 @@ import MwVerif.Props.C10
 * entity resolution is total: for every entity lexeme the scanner can produce — arbitrarily long
   digit strings included — `resolve_entity` yields a code point that exists or keeps the text
   (the pinned code raised `OverflowError` on `&#99999999999;`).
-The refinement passes after the scanner are not modelled; for them the check is the no-exception /
+* the apostrophe analysis (`styleanalyzer.compute_path`): for every sequence of runs of at least two
+  apostrophes — which is what the scanner's `t_singlequote` rule produces — and for **every**
+  tie-break of the candidate sort, the chosen path has exactly one state per run, so
+  `InconsistentPathLengthException` is unreachable; at most 32 candidates survive an iteration and
+  at most 192 are examined in the next: the work per run is bounded by a constant (no blow-up).
+The other refinement passes are not modelled; for them the check is the no-exception /
 polynomial-time oracle over the generated input space.
 -/
 namespace MwVerif.Entity
@@ -76,3 +82,31 @@ theorem c01_scan_total_and_tiling (text : List Char) :
         (text ++ List.replicate 32 (Char.ofNat 0))[i]? = some ebadChar) :=
   c10_tiles_mw text
 end MwVerif.Scan
+
+namespace MwVerif.Style
+
+/-- C01 (apostrophe analysis): whatever the tie-break, `compute_path` returns one state per run. -/
+theorem c01_path_length (sel : List State → List State) (hs : SelOk sel) (counts : List Nat)
+    (hc : ∀ c ∈ counts, 2 ≤ c) :
+    ∃ p, computePath sel counts = some p ∧ p.length = counts.length := by
+  unfold computePath
+  obtain ⟨hne, hl⟩ := run_inv sel hs counts [init] 0 hc (by simp) (by intro s hs'; simp at hs'; subst hs'; rfl)
+  cases hr : runStates sel [init] counts with
+  | nil => exact absurd hr hne
+  | cons s rest =>
+    have := hl s (by rw [hr]; simp)
+    simp only [Nat.zero_add] at this
+    exact ⟨s.path.reverse, by simp [this], by simp [this]⟩
+
+/-- C01 (no blow-up): the candidate set stays within 32 states after every run, so each run costs at
+most 192 successor computations. -/
+theorem c01_state_bound (sel : List State → List State) (hs : SelOk sel) (states : List State) (count : Nat)
+    (hc : 2 ≤ count) (hb : states.length ≤ 32) :
+    (stepStates sel states count).length ≤ 32 ∧ (states.flatMap fun s => getNext s count).length ≤ 192 :=
+  ⟨hs.bound _, candidates_bounded states count hc hb⟩
+
+/-- a selection like the code's (keep the first 32 of any re-ordering) satisfies the hypotheses -/
+example : SelOk (fun l => l.take 32) :=
+  ⟨fun l s h => List.mem_of_mem_take h, fun l h => by cases l <;> simp_all, fun l => by simp [List.length_take]; omega⟩
+
+end MwVerif.Style
